@@ -26,7 +26,7 @@ impl Filter {
     }
     pub fn evaluate(&self, request: &Context) -> Result<bool, Error> {
         let ctx = create_context(request.props().clone());
-        let ret = self.root.value_of(ctx.into())?.try_into()?;
+        let ret = self.root.real_value_of(ctx.into())?.try_into()?;
         trace!("filter eval: {:?} => {}", request, ret);
         Ok(ret)
     }
